@@ -208,7 +208,48 @@ def run_ops_scenario(r: Runner, scn: dict):
 # CLI scenarios (no intermediate state observable): one Cli event per run
 
 
-STALE = b"left behind by an earlier invocation\n"
+STALE = core.STALE
+
+
+def inprocess_histories(r: Runner):
+    import os
+    ctx = r.ctx
+    core.setup_repo_path()
+    from suit_generator import cmd_cache_create
+    it = r.it
+    d = ctx.tmp("inproc")
+    (d / "a").mkdir()
+    (d / "b").mkdir()
+    cwd = os.getcwd()
+    try:
+        for rnd in range(4 if ctx.quick else 40):
+            steps = []
+            f = d / "fw.bin"
+            for ver in range(3):   # the file at one absolute path is rewritten between calls
+                data = payload(20 + ver + rnd, 100 * rnd + ver)
+                steps.append(("abs", [f"#fw,{f}"], [["#fw", data]], None, f))
+            for sub_ in ("a", "b", "a"):   # the same RELATIVE name, resolved from two directories that hold different files
+                data = payload(9 + rnd + (sub_ == "b"), 7 * rnd + ord(sub_))
+                steps.append(("rel", ["#rel,rel.bin"], [["#rel", data]], d / sub_, d / sub_ / "rel.bin"))
+            for n_, (kind, inputs, pairs, where, target) in enumerate(steps):
+                target.write_bytes(pairs[0][1])   # the file gets its content right before THIS call
+                out = d / f"cache_{rnd}_{n_}.bin"
+                os.chdir(where or d)
+                try:
+                    cmd_cache_create.main(cache_create_subcommand="from_payloads", eb_size=[8, 16, 1][n_ % 3], output_file=str(out), input=inputs)
+                except Exception:
+                    pass
+                os.chdir(cwd)
+                ok, flen, ents = walk_file(out.read_bytes(), it) if out.exists() else (False, 0, [])
+                r.tid += 1
+                r.scn[r.tid] = {"kind": "inprocess", "round": rnd, "step": n_, "form": kind}
+                r.events.append({"tid": r.tid, "i": 0, "ev": "Begin", "eb": [8, 16, 1][n_ % 3]})
+                r.events.append({"tid": r.tid, "i": 1, "ev": "Cli", "eb": [8, 16, 1][n_ % 3], "want": [[it.id(u), it.id(b)] for u, b in pairs], "dup": False,
+                                 "refusal": False, "written": out.exists(), "ok": ok, "flen": flen, "ents": ents, "rc": 0})
+                ctx.count("evaluations")
+                ctx.nontriv(("inprocess", rnd, n_))
+    finally:
+        os.chdir(cwd)
 
 
 def run_cli(r: Runner, scn: dict):
@@ -448,6 +489,11 @@ def run(ctx: core.Check):
         ctx.count("evaluations")
     ctx.sample({"cli_scenario": cl[0], "events": [e for e in r.events if e["tid"] == 1]})
     judge_and_report(ctx, r, "cli")
+    # ---- the library entry point called repeatedly in ONE process: the same path string names other bytes the second time
+    ctx.note("Use C: from_payloads histories in one process (file rewritten; same relative name in another directory)")
+    r = Runner(ctx)
+    inprocess_histories(r)
+    judge_and_report(ctx, r, "inprocess")
     ctx.assumptions += [
         "interning of keys/values is injective (sha256)",
         "the verifier's CBOR walker (harness/cborx.py) gives cache files their meaning",
